@@ -621,10 +621,12 @@ def main(ctx):
                 v = row[1]
                 if v not in sessions:
                     sessions[v] = sw.session(v)
-                label = row[2] if row[0] == 'errno' else \
+                label = row[2] if row[0] in ('errno', 'access') else \
                     f'SFTPError({row[2]})'
                 try:
-                    if row[0] == 'errno':
+                    if row[0] == 'access':
+                        got = sftp_proto.access_case(sessions[v], v, row[2])
+                    elif row[0] == 'errno':
                         got = sftp_proto.errno_case(sessions[v], v,
                                                     name=row[2])
                     else:
